@@ -965,10 +965,15 @@ func wgRunOne(b *BatchResult, prop string, seed, run uint64, p wgParams) {
 			k2 := biasKnobs(prop, r, drawKnobs(r))
 			other := genModel(r, k2)
 			wl4 := &wlWG{Variant: "concurrent", Model: m, Others: []*Model{other}, SharedBuilder: r.chance(50)}
-			nt := 2 + r.intn(2)
+			nt := 1 + r.intn(3) // 1 task = a sequential history of builds on one builder
 			for t := 0; t < nt; t++ {
 				var list []int
-				for j := 0; j < 1+r.intn(2); j++ {
+				n := 1 + r.intn(2)
+				if nt == 1 {
+					n = 2 + r.intn(3)
+					wl4.SharedBuilder = true
+				}
+				for j := 0; j < n; j++ {
 					list = append(list, r.intn(2))
 				}
 				wl4.Tasks = append(wl4.Tasks, list)
